@@ -135,8 +135,19 @@ fn gen_file(rng: &mut Rng, target: usize, pool: &mut Vec<Vec<u8>>, world_files: 
     if kind <= 1 { data.truncate(want); }
     let mut parts = Vec::new();
     let mut left = data.len();
-    match rng.below(3) {
+    match rng.below(4) {
         0 => parts.push(left),
+        3 if !data.is_empty() => {
+            // calls that end at chosen offsets relative to the chunk structure (around the first hashed byte min-65, the minimum,
+            // the cut itself): see the chunker suite's structure-aligned partitions
+            let (min_c, max_c) = (target / *MINIMUM_CHUNK_DIVISOR, target * *MAXIMUM_CHUNK_MULTIPLIER);
+            let r = crate::suites::chunker::reference_split(&data, min_c, max_c, crate::suites::chunker::mask_of(target));
+            let mut cuts = Vec::new(); let mut start = 0usize;
+            for l in &r { if rng.chance(2, 3) { let d = rng.below(5) as usize; let off = match rng.below(4) { 0 | 1 => (min_c + d).saturating_sub(66), 2 => (min_c + d).saturating_sub(2), _ => (l + d).saturating_sub(3) }; if off <= *l { cuts.push(start + off); } } start += l; }
+            cuts.push(data.len()); cuts.sort();
+            let mut pos = 0; for c in cuts { parts.push(c - pos); pos = c; }
+            left = 0; let _ = left;
+        }
         _ => { while left > 0 { let n = (match rng.below(5) { 0 => 0, 1 => 1, 2 => rng.below(100) as usize, _ => rng.below(20 * target as u64) as usize }).min(left); parts.push(n); left -= n; } if rng.chance(1, 2) { parts.push(0); } }
     }
     FileSpec { data, parts }
@@ -159,6 +170,7 @@ pub fn run_child(ctx: &mut Ctx) {
         let config = TranslatorConfig::local_config(&base).unwrap();
         let xorb_dir = base.join("xet").join("xorbs");
         let mut world_files: Vec<Vec<u8>> = Vec::new();
+        let mut seen_pointers: HashMap<MerkleHash, (MerkleHash, u64)> = HashMap::new();
         let mut world_ptrs: Vec<(PointerFile, Vec<u8>)> = Vec::new();
         let mut pool: Vec<Vec<u8>> = Vec::new();
         let nsessions = rng.range(2, 4);
@@ -241,6 +253,21 @@ pub fn run_child(ctx: &mut Ctx) {
                 let m = &d.metrics;
                 sum.merge_in(m);
                 if m.total_bytes != d.spec.data.len() || d.pointer.filesize() as usize != d.spec.data.len() { ctx.fail("C14", "metrics-double-count", format!("pointer size {} / total_bytes {} != bytes fed {}", d.pointer.filesize(), m.total_bytes, d.spec.data.len()), replay.clone()); }
+                // C03: the pointer depends on the bytes only: equal to the one-shot chunking of the bytes hashed with the salt, and equal
+                // for equal bytes wherever / however they were cleaned before in this store
+                {
+                    let mut ch = deduplication::Chunker::new(target);
+                    let mut cs: Vec<(MerkleHash, usize)> = ch.next_block(&d.spec.data, true).iter().map(|c| (c.hash, c.data.len())).collect();
+                    if let Some(c) = ch.finish() { cs.push((c.hash, c.data.len())); }
+                    let want = merkledb::aggregate_hashes::file_node_hash(&cs, &[0u8; 32]).unwrap();
+                    let got = d.pointer.hash().unwrap_or_default();
+                    if got != want { ctx.fail("C03", "pointer-differs-from-one-shot-reference", format!("file of {} bytes fed in {} add_data calls has pointer hash {} but the same bytes chunked in one call hash to {}", d.spec.data.len(), d.spec.parts.len(), got.hex(), want.hex()), replay.clone()); }
+                    let key = compute_data_hash(&d.spec.data);
+                    match seen_pointers.get(&key) {
+                        Some((h0, n0)) if (*h0, *n0) != (got, d.pointer.filesize()) => ctx.fail("C03", "same-bytes-different-pointer", format!("the same {} bytes were cleaned twice and got pointers ({}, {}) and ({}, {})", d.spec.data.len(), h0.hex(), n0, got.hex(), d.pointer.filesize()), replay.clone()),
+                        _ => { seen_pointers.insert(key, (got, d.pointer.filesize())); }
+                    }
+                }
                 if m.new_bytes + m.deduped_bytes != m.total_bytes || m.new_chunks + m.deduped_chunks != m.total_chunks { ctx.fail("C14", "new-plus-deduped", "new + deduped != total".into(), replay.clone()); }
                 if m.defrag_prevented_dedup_bytes > m.new_bytes { ctx.fail("C14", "prevented-exceeds-new", "withheld bytes exceed new bytes".into(), replay.clone()); }
                 if reupload && m.new_bytes != 0 && world_files.contains(&d.spec.data) { ctx.fail("C11", "repeat-upload-new-bytes", format!("re-upload of an unchanged file of {} bytes in a later session transferred {} new bytes (limits {maxb}/{maxc}, target {target})", d.spec.data.len(), m.new_bytes), replay.clone()); }
